@@ -278,13 +278,14 @@ Qed.
 
 (* binary operators act period by period on the encompassing span *)
 Lemma row_at_binop (f : V -> V -> V) (s1 s2 s : series) :
-  WF s1 -> WF s2 -> s_nv s1 = s_nv s2 -> binop A f s1 s2 = Ok s ->
+  WF s1 -> WF s2 -> s_nv s1 = s_nv s2 -> (s_start s1 = None -> s_start s2 = None -> False) ->
+  binop A f s1 s2 = Ok s ->
   exists lo hi, omin (s_start s1) (s_start s2) = Some lo /\ omax (s_end A s1) (s_end A s2) = Some hi /\
   WF s /\ s_nv s = s_nv s1 /\
   forall t, row_at A s t = if (lo <=? t) && (t <=? hi) then zip_bcast A f (row_at A s1 t) (row_at A s2 t)
                           else missrow A (s_nv s1).
 Proof.
-  intros W1 W2 Hnv. unfold binop.
+  intros W1 W2 Hnv Hne. unfold binop.
   assert (Hlen : forall u, length (zip_bcast A f (row_at A s1 u) (row_at A s2 u)) = s_nv s1)
     by (intros u; rewrite zip_bcast_length, !row_at_length by assumption; rewrite <- Hnv; apply Nat.max_id).
   assert (Hb : forall fr lo hi g, s_nv (build A fr (s_nv s1) lo hi g) = s_nv s1).
@@ -292,6 +293,7 @@ Proof.
     destruct (rev (snd (drop_leading A (rev r1)))); reflexivity. }
   rewrite <- Hnv, Nat.max_id, Nat.eqb_refl. simpl.
   destruct (s_start s1) as [a1|] eqn:E1, (s_start s2) as [a2|] eqn:E2; try discriminate;
+  [| | |exfalso; now apply Hne];
   unfold s_end; rewrite ?E1, ?E2; simpl.
   - destruct (s_freq s1 =? s_freq s2); simpl; [|discriminate].
     intros H; inversion H; subst; clear H.
